@@ -272,7 +272,7 @@ func run(id, tier string) int {
 			core.ReadHashes(f, sets[name])
 		}
 	}
-	if len(agg.Harness) > 0 {
+	if len(agg.Harness) > 0 && len(agg.ViolCount) == 0 {
 		fmt.Printf("HARNESS-FAILURE %d harness errors; first:\n%s\n", len(agg.Harness), agg.Harness[0])
 		return 2
 	}
@@ -558,7 +558,7 @@ func replay(path string) int {
 		fail2("%v", err)
 	}
 	if r.Index < 0 {
-		fmt.Printf("replay of %s: this witness is a race report without a case index; rerun the check (`mxjcheck run %s --tier %s` with VERIF_SEED=%d)\n", r.Class, r.Property, r.Tier, r.Seed)
+		fmt.Printf("replay of %s: this witness (race report / end-of-process assertion) has no case index; rerunning the check (`mxjcheck run %s --tier %s` with VERIF_SEED=%d)\n", r.Class, r.Property, r.Tier, r.Seed)
 		return run(r.Property, r.Tier)
 	}
 	wd, _ := os.Getwd()
